@@ -312,6 +312,15 @@ func isWordByte(c byte) bool {
 	return c >= 'a' && c <= 'z' || c >= 'A' && c <= 'Z' || c >= '0' && c <= '9' || c >= 0x80
 }
 
+func allDigits(s string) bool {
+	for i := 0; i < len(s); i++ {
+		if s[i] < '0' || s[i] > '9' {
+			return false
+		}
+	}
+	return s != ""
+}
+
 // needsSeparator reports whether two adjacent tokens would lex differently when
 // written with nothing between them.
 func needsSeparator(a, b string) bool {
@@ -319,6 +328,11 @@ func needsSeparator(a, b string) bool {
 		return false
 	}
 	la, fb := a[len(a)-1], b[0]
+	if allDigits(a) && !(fb >= '0' && fb <= '9') && fb < 0x80 {
+		// a number ends at the first character that is not a digit: `3with`, `1digit`
+		// are two tokens each (whitespace is needed only to separate adjacent words)
+		return false
+	}
 	if isWordByte(la) && isWordByte(fb) {
 		return true
 	}
